@@ -32,37 +32,30 @@ Theorem C11_kinds_compatible : forall ins outs fb p0 ops, init ins outs fb = IOk
 Proof. exact kinds_compatible. Qed.
 Print Assumptions C11_kinds_compatible.
 
-(* Locktime() is the largest required locktime of the BIP-370 kind (else the fallback) — outside the one
-   shape where today's code is wrong (a time-only input next to an input that has a height) *)
-Theorem C11_locktime_is_max_of_selected_kind_partial : forall p,
-  kind_conflict p = false -> locktime p = spec_locktime p.
-Proof. exact locktime_is_max_of_selected_kind_partial. Qed.
-Print Assumptions C11_locktime_is_max_of_selected_kind_partial.
+(* Locktime() is the largest required locktime of the kind BIP-370 selects, else the fallback: every packet *)
+Theorem C11_locktime_is_max_of_selected_kind : forall p, locktime p = spec_locktime p.
+Proof. exact locktime_is_max_of_selected_kind. Qed.
+Print Assumptions C11_locktime_is_max_of_selected_kind.
 
-Theorem C11_locktime_is_max_of_selected_kind_refuted :
+(* all-or-nothing: a multi-part operation that returns an error leaves the packet unchanged (any packet;
+   adding inputs/outputs, issuance, reissuance, the three signers, finalize-all) *)
+Theorem C11_multi_part_ops_atomic : forall p o,
+  snd (step p o) = Err -> is_multi_part o = true -> is_blind o = false -> fst (step p o) = p.
+Proof. exact multi_part_ops_atomic. Qed.
+Print Assumptions C11_multi_part_ops_atomic.
+
+(* ... the blinder: unchanged except for the range proof Input.GetUtxo copies into the stored previous outputs *)
+Theorem C11_blinder_atomic_partial : forall p a, snd (step p (OBlind a)) <> Ok ->
+  exists auxs, fst (step p (OBlind a)) = upd p auxs (p_outs p) (g_scalars p)
+               /\ map forget auxs = map forget (p_auxs p).
+Proof. exact blinder_atomic_partial. Qed.
+Print Assumptions C11_blinder_atomic_partial.
+
+Theorem C11_blinder_atomic_refuted :
   exists ins outs fb p0 ops, init ins outs fb = IOk p0 /\
-    locktime (run p0 ops) = 100 /\ spec_locktime (run p0 ops) = 600000000.
-Proof. exact locktime_is_max_of_selected_kind_refuted. Qed.
-Print Assumptions C11_locktime_is_max_of_selected_kind_refuted.
-
-(* all-or-nothing: AddInputs/AddOutputs that fail change nothing, unless the failing check is the SanityCheck after publication *)
-Theorem C11_multi_part_ops_atomic_partial : forall p o,
-  snd (step p o) = Err -> is_add_io o = true -> sanity (fst (step p o)) = true -> fst (step p o) = p.
-Proof. exact multi_part_ops_atomic_partial. Qed.
-Print Assumptions C11_multi_part_ops_atomic_partial.
-
-(* every failing multi-part operation keeps counts, outpoints, locktimes, flags and the number of outputs (same exception) *)
-Theorem C11_multi_part_ops_skeleton_atomic_partial : forall p o,
-  snd (step p o) = Err -> is_multi_part o = true -> sanity (fst (step p o)) = true -> same_skel p (fst (step p o)).
-Proof. exact multi_part_ops_skeleton_atomic_partial. Qed.
-Print Assumptions C11_multi_part_ops_skeleton_atomic_partial.
-
-Theorem C11_multi_part_ops_atomic_refuted :
-  exists ins outs fb p0 ops o, init ins outs fb = IOk p0 /\ is_multi_part o = true /\
-    snd (step (run p0 ops) o) = Err /\ fst (step (run p0 ops) o) <> run p0 ops
-    /\ sanity (fst (step (run p0 ops) o)) = true.
-Proof. exact multi_part_ops_atomic_refuted. Qed.
-Print Assumptions C11_multi_part_ops_atomic_refuted.
+    snd (step (run p0 ops) (OBlind blind_refused)) = Err /\ fst (step (run p0 ops) (OBlind blind_refused)) <> run p0 ops.
+Proof. exact blinder_atomic_refuted. Qed.
+Print Assumptions C11_blinder_atomic_refuted.
 
 (* an already finalized input is not altered by AddInputs, AddOutputs, the three signers and the finalizers *)
 Theorem C11_finalized_inputs_frozen_partial : forall p o n a,
@@ -80,8 +73,7 @@ Print Assumptions C11_finalized_inputs_frozen_refuted.
 
 (* serialises and re-parses to itself: what the creator builds from well-formed arguments *)
 Theorem C11_reachable_roundtrips_partial : forall ins outs fb p0,
-  init ins outs fb = IOk p0 -> Forall inarg_plain ins -> Forall outarg_plain outs ->
-  (length ins < 253)%nat -> (length outs < 253)%nat -> rt p0 = true.
+  init ins outs fb = IOk p0 -> Forall inarg_plain ins -> Forall outarg_plain outs -> rt p0 = true.
 Proof. exact reachable_roundtrips_partial. Qed.
 Print Assumptions C11_reachable_roundtrips_partial.
 
@@ -90,14 +82,3 @@ Theorem C11_reachable_roundtrips_refuted_failed_setter :
     snd (step p0 o) = Err /\ rt (fst (step p0 o)) = false.
 Proof. exact reachable_roundtrips_refuted_failed_setter. Qed.
 Print Assumptions C11_reachable_roundtrips_refuted_failed_setter.
-
-Theorem C11_reachable_roundtrips_refuted_both_locktimes :
-  exists ins outs fb p0, init ins outs fb = IOk p0 /\ rt p0 = false.
-Proof. exact reachable_roundtrips_refuted_both_locktimes. Qed.
-Print Assumptions C11_reachable_roundtrips_refuted_both_locktimes.
-
-Theorem C11_reachable_roundtrips_refuted_count_253 :
-  exists ins outs fb p0 o, init ins outs fb = IOk p0 /\ snd (step p0 o) = Ok /\ rt (fst (step p0 o)) = false
-    /\ g_nin (fst (step p0 o)) = 253.
-Proof. exact reachable_roundtrips_refuted_count_253. Qed.
-Print Assumptions C11_reachable_roundtrips_refuted_count_253.
